@@ -127,7 +127,8 @@ def check(ctx):
             if any(nm not in ('is_operational',) for nm in names):
                 return after.with_flag('effect:' + n.src()[:50])
         return after
-    for e, sd in (('shutdown', 'T'), ('restore_functionality', 'F'), ('start_work', 'T'), ('end_work', 'F')):
+    # (the property speaks of repeated shutdown / restore calls; what the work-order hooks do on a machine that is already down -- count the order -- is C13.6)
+    for e, sd in (('shutdown', 'T'), ('restore_functionality', 'F')):
         g = ctx.graph(c, e)
         an = Analysis(P, g, ['_part', '_output', '_is_shut_down', '_block_input'])
         an.node_hooks.append(effect_hook)
@@ -343,18 +344,76 @@ def check(ctx):
                            file=c.mod.path, line=dv.entry_fn(P, c, e).lineno, path=res.path_lines(g.exit, st))
 
     # ---- C13.6 default work-order hooks ---------------------------------------------------------------------------------
-    o = Ob('C13.6', 'K3', 'the default start_work shuts the machine down, the default end_work restores it')
+    o = Ob('C13.6', 'K3+K5', 'the default start_work shuts the machine down and counts the order; the default end_work restores the machine when the last default order on it ends')
     obs.append(o)
-    for e, sd, want in (('start_work', 'F', 'T'), ('end_work', 'T', 'F')):
+    # The machine counts the default work orders in progress on it (several maintainers may work on one machine: each excludes a second order on
+    # a target only among its own).  The counter is found by what it does: the field the default start_work increases by one.
+    from ..norm import cmp_norm as _cmpn
+    import operator as _op
+    sfn = P.method(c, 'start_work')[1]
+    N13 = Normalizer(P, c)
+    counters = []
+    for x in ast.walk(sfn):
+        if isinstance(x, (ast.AugAssign, ast.Assign)):
+            tg = x.target if isinstance(x, ast.AugAssign) else (x.targets[0] if len(x.targets) == 1 else None)
+            if tg is not None and is_self_attr(tg):
+                newv = N13.norm(ast.BinOp(left=tg, op=x.op, right=x.value) if isinstance(x, ast.AugAssign) else x.value, {})
+                if newv.is_({'self.' + tg.attr: 1}, 1):
+                    counters.append(tg.attr)
+    CNT = counters[0] if len(counters) == 1 else None
+    OPS13 = {'<': _op.lt, '<=': _op.le, '==': _op.eq, '!=': _op.ne}
+
+    def cnt_node(an_, n, before, after):
+        a = n.ast
+        if CNT and n.kind == 'stmt' and isinstance(a, (ast.AugAssign, ast.Assign)):
+            tg = a.target if isinstance(a, ast.AugAssign) else (a.targets[0] if len(a.targets) == 1 else None)
+            if tg is not None and is_self_attr(tg, CNT):
+                newv = N13.norm(ast.BinOp(left=tg, op=a.op, right=a.value) if isinstance(a, ast.AugAssign) else a.value, FrameEnv(n.frame))
+                cur = before.fields['#cnt']
+                if cur in ('0', '1', '2') and set(newv.terms) <= {'self.' + CNT} and newv.terms.get('self.' + CNT, 0) in (0, 1):
+                    v = int(cur) * newv.terms.get('self.' + CNT, 0) + newv.const
+                    return after.with_field('#cnt', str(v) if 0 <= v <= 3 else 'bad')
+                return after.with_field('#cnt', 'bad')
+        return after
+
+    def cnt_refine(an_, test, truth, st, frame):
+        if not CNT:
+            return NotImplemented
+        t = test
+        if is_self_attr(t, CNT):          # truthiness of the counter
+            cur = st.fields['#cnt']
+            return (st if (cur != '0') == truth else None) if cur in ('0', '1', '2', '3') else st
+        r = _cmpn(N13, t, FrameEnv(frame), truth)
+        if r is not None and set(r[0].terms) == {'self.' + CNT}:
+            cur = st.fields['#cnt']
+            if cur in ('0', '1', '2', '3'):
+                return st if OPS13[r[1]](r[0].terms['self.' + CNT] * int(cur) + r[0].const, 0) else None
+            return st
+        return NotImplemented
+    o.count()
+    if CNT is None:
+        o.fail(P, 'PartProcessor.end_work', 'self.restore_functionality()', 'the default end_work restores the machine whatever else is in progress on it: the machine does not count '
+               'the default work orders working on it, and a maintainer excludes a second order on a target only among its own orders -- with two maintainers the first order to end '
+               'brings the machine up while the other is still in progress', file=c.mod.path, line=P.method(c, 'end_work')[1].lineno)
+    else:
+        o.witness(('counter', CNT))
+    for e, sd, k0, want, k1 in (('start_work', 'F', '0', 'T', '1'), ('start_work', 'T', '1', 'T', '2'), ('end_work', 'T', '2', 'T', '1'), ('end_work', 'T', '1', 'F', '0'),
+                                ('end_work', 'T', '0', 'F', '0')):
+        if CNT is None and (e, k0) not in (('start_work', '0'), ('end_work', '1')):
+            continue
         g = ctx.graph(c, e)
-        an = Analysis(P, g, ['_part', '_output', '_is_shut_down', '_block_input'])
-        res = ctx.explore(an, [State({'_part': 'N', '_output': 'N', '_is_shut_down': sd, '_block_input': 'F'})])
+        an = Analysis(P, g, ['_part', '_output', '_is_shut_down', '_block_input', '#cnt'])
+        an.node_hooks.append(cnt_node)
+        an.refine_hooks.insert(0, cnt_refine)
+        res = ctx.explore(an, [State({'_part': 'N', '_output': 'N', '_is_shut_down': sd, '_block_input': 'F', '#cnt': k0})])
         for st in res.exits():
             o.count()
-            o.witness(e)
-            if st.fields['_is_shut_down'] != want:
+            o.witness((e, k0))
+            if st.fields['_is_shut_down'] != want or (CNT and st.fields['#cnt'] != k1):
                 o.fail(P, f'PartProcessor.{e}', 'self.shutdown()' if e == 'start_work' else 'self.restore_functionality()',
-                       f'the default {e} hook leaves the machine {"up" if want == "T" else "down"}', file=c.mod.path, line=P.method(c, e)[1].lineno)
+                       f'with {k0} default work order(s) in progress on the machine, the default {e} hook leaves the machine {"down" if st.fields["_is_shut_down"] == "T" else "up"} and the count at '
+                       f'{st.fields["#cnt"]}; expected {"down" if want == "T" else "up"} and {k1} (the machine stays down until the last order on it ends)',
+                       file=c.mod.path, line=P.method(c, e)[1].lineno, path=res.path_lines(g.exit, st))
     for m_ in ('get_work_order_duration', 'get_work_order_capacity', 'get_work_order_cost'):
         o.count()
         if not P.has_method(c, m_):
